@@ -519,7 +519,7 @@ func (m *monitor) runE2E() {
 	}
 
 	// run the tasks, a few at a time (every lint uses many cores itself)
-	par := 5
+	par := min(5, par())
 	var wg sync.WaitGroup
 	tch := make(chan task)
 	for w := 0; w < par; w++ {
